@@ -544,7 +544,20 @@ pub fn plan(p: u32, tier: &str) -> Vec<Run> {
         8 | 9 => {
             add(s3(true), families::slots(3));
             add(s4(true), families::slots(4));
-            add(late3f(), families::late3x_oe());
+            // two changes (the input changes and one output is missing), every fault, then the next evaluation
+            if p == 8 {
+                let mut l3 = late3f();
+                l3.edit_bound = Some(2);
+                l3.follow = false;
+                l3.name = "late3x-OE-k2".into();
+                add(l3, families::late3x_oe());
+            } else {
+                add(late3f(), families::late3x_oe());
+            }
+            // multi-output ids that fail or are interrupted
+            let mut rn = rename("rename-prod+follow", Conv::Parts, Cmp::Prod);
+            rn.follow = true;
+            add(rn, families::rename_opts(false, Kind::O, false));
             // late failures under a comparison that tolerates textual differences: records of jobs that were
             // skipped and then turned upstream-failed must stay as they were, to the letter (finding F12)
             let mut lpn = noise("latepair-noise", 2, false, false);
@@ -811,6 +824,11 @@ pub fn plan(p: u32, tier: &str) -> Vec<Run> {
         }
         15 => {
             add(noise("S3D2-noise-twin+follow", 2, true, true), families::slots(3));
+            // renamed multi-output upstreams whose records differ in the timestamp only
+            let mut rn = rename("rename-prod-noise-twin", Conv::Parts, Cmp::Prod);
+            rn.noise = true;
+            rn.twin = true;
+            add(rn, families::rename_opts(false, Kind::O, false));
             add(noise("S3D3-noise-twin-E-consumers", 3, false, true), slots_matching(3, &["EOO", "EEO", "AEO"]));
             let mut o = noise("S3D2-noise-orders", 2, false, false);
             o.orders = Orders::Few;
